@@ -18,7 +18,8 @@ EXTENDS Integers, Sequences, FiniteSets, TLC, Json
 CONSTANTS Series,          \* e.g. {"c", "g", "s", "t"}; the first letter is the type
           MaxLen, ExpirySets
 
-TypeOf(s) == CASE s \in {"c", "c2"} -> "counter" [] s = "g" -> "gauge" [] s = "s" -> "set" [] OTHER -> "timer"
+\* "c2", "g2": a second series with the SAME NAME as "c" / "g" but another tag set (siblings under one name)
+TypeOf(s) == CASE s \in {"c", "c2"} -> "counter" [] s \in {"g", "g2"} -> "gauge" [] s = "s" -> "set" [] OTHER -> "timer"
 
 VARIABLES hist, now, exp,
           pT, pGone, pPend, pGauge,       \* P-level: last datapoint time, gone flag, ids since last flush, last id ever
